@@ -8,7 +8,7 @@ import tempfile
 import plumpy
 import yaml
 
-from pv import judges, outlines, persist, plans, programs
+from pv import generated, judges, outlines, persist, plans, programs
 from pv.monitors import c14
 
 ID = 'C08'
@@ -25,7 +25,7 @@ RULE = ('process programs (sync/async steps, waits with resume values, continuat
 ASSUMPTIONS = ['steps depend only on persisted state by construction (trace and scripts live in persisted members / ctx / inputs)',
                'WorkChains waiting on futures are not checkpoint points (they cannot be saved)']
 REQUIRED = ['restores', 'kinds/process', 'kinds/outline', 'transport/pickle', 'crash_in_wait', 'multi_restore', 'traces_compared', 'ctx_compared',
-            'inputs/none', 'inputs/empty', 'inputs/given', 'outline_nodes/if', 'outline_nodes/while', 'elif_or_else_body_crash', 'lost_work_restores', 'transport/mem-live', 'transport/pkfile-live', 'transport/bundle-live']
+            'inputs/none', 'inputs/empty', 'inputs/given', 'outline_nodes/if', 'outline_nodes/while', 'elif_or_else_body_crash', 'lost_work_restores', 'transport/mem-live', 'transport/pkfile-live', 'transport/bundle-live', 'codec_processes']
 BOUNDS = {'quick': 'basic family + 12 random programs, 60 outlines, crash subsets <=2', 'thorough': '+150 random programs, 800 outlines, subsets <=3, persister/YAML transports'}
 
 
@@ -66,7 +66,7 @@ def gen_cases(tier, seed):
                     sets = rng.sample(sets, 40)
                 for cs in sets:
                     yield {'kind': 'process', 'name': name, 'program': prog, 'inputs': inputs, 'ctx': ctxprog, 'crash': cs,
-                           'transport': rng.choice(transports)}
+                           'transport': rng.choice(transports), 'codec': rng.random() < 0.25}
                 # checkpoints written by a persister; the writing instance runs on for 1-3 boundaries before the crash (lost work)
                 for cs in rng.sample(sets, min(len(sets), 6 if tier == 'quick' else 20)):
                     yield {'kind': 'process', 'name': name, 'program': prog, 'inputs': inputs, 'ctx': ctxprog, 'crash': cs,
@@ -116,6 +116,17 @@ def _transport(kind, workdir):
     return go
 
 
+_CODEC = {}
+
+
+def _codec_base(base):
+    if base not in _CODEC:
+        cls = type(base.__name__ + 'Codec', (programs.CodecMixin, base), {})
+        generated.register(cls)
+        _CODEC[base] = cls
+    return _CODEC[base]
+
+
 def _summary(r):
     v = r['views']
     return {'state': v['state'], 'result': v['result'], 'successful': v['successful'], 'exception': v['exception'], 'killed_msg': v['killed_msg'],
@@ -132,7 +143,9 @@ def run_case(case):
     workdir = tempfile.mkdtemp(prefix='c08-', dir=os.environ.get('PV_WORK') or None)
     try:
         if case['kind'] == 'process':
-            base = c14.CtxProg if case['ctx'] else None
+            base = c14.CtxProg if case['ctx'] else programs.ProgBase
+            if case.get('codec'):
+                base = _codec_base(base)
             cls = programs.program_class(case['program'], base)
             inputs = case['inputs']
             obs['inputs']['none' if inputs is None else ('empty' if not inputs else 'given')] = 1
@@ -142,7 +155,8 @@ def run_case(case):
 
             resume = lambda j: ['rv%d' % j]  # noqa: E731
             label = '%s:inputs=%s' % ('ctxprocess' if case['ctx'] else 'process', 'none' if inputs is None else ('empty' if not inputs else 'given'))
-            refkey = repr((case['program'], inputs, case['ctx']))
+            refkey = repr((case['program'], inputs, case['ctx'], bool(case.get('codec'))))
+            obs['codec_processes'] = int(bool(case.get('codec')))
         else:
             cls = outlines.outline_class(case['ast'])
 
